@@ -91,7 +91,7 @@ impl EntityLoader for SupersetLoader<'_> {
 }
 
 fn case(t: &mut Tape, rec: &mut Rec<'_>) {
-    let o = AuthOpts { schema: SchemaOpts { chains: true, ..SchemaOpts::default() }, max_policies: rec.size(3, 5), depth: rec.size(2, 3), path_budget: 4, traps: false };
+    let o = AuthOpts { closed_16: 0, schema: SchemaOpts { chains: true, ..SchemaOpts::default() }, max_policies: rec.size(3, 5), depth: rec.size(2, 3), path_budget: 4, traps: false };
     let c = match scase::gen_auth_case(t, &o) {
         Ok(c) => c,
         Err(e) => {
